@@ -197,7 +197,14 @@ def build_model(timeout=1200):
 
 def run_model(text, timeout=900):
     exe = os.path.join(BUILD, "ocaml", "model")
-    p = subprocess.run([exe], input=text.encode(), stdout=subprocess.PIPE, stderr=subprocess.PIPE, timeout=timeout)
+    def big_stack():
+        import resource
+        try:
+            resource.setrlimit(resource.RLIMIT_STACK, (resource.RLIM_INFINITY, resource.RLIM_INFINITY))
+        except Exception:
+            pass
+    p = subprocess.run([exe], input=text.encode(), stdout=subprocess.PIPE, stderr=subprocess.PIPE, timeout=timeout,
+                       preexec_fn=big_stack)
     if p.returncode != 0:
         raise RuntimeError("model driver failed: " + p.stderr.decode("utf-8", "replace")[-2000:])
     return p.stdout.decode("latin-1").split("\n")[:-1]
